@@ -546,6 +546,12 @@ class _FragmentCompiler:
                 _StatementCompiler(self.state, emitter)(domain_stmts)
 
                 if domain.rst is not None:
+                    # Memory read ports have no reset: their data registers keep their value.
+                    read_data = SignalSet()
+                    if isinstance(fragment, MemoryInstance):
+                        for port in fragment._read_ports:
+                            if port._domain == domain_name:
+                                read_data.update(port._data._lhs_signals())
                     rhs = _RHSValueCompiler(self.state, emitter, mode="curr")
                     rst = rhs(domain.rst)
                     rst = f"(1 & {rst})"
@@ -553,7 +559,7 @@ class _FragmentCompiler:
                     with emitter.indent():
                         emitter.append("pass")
                         for (signal, _) in lhs_masks.masks():
-                            if not signal.reset_less:
+                            if not signal.reset_less and signal not in read_data:
                                 signal_index = self.state.get_signal(signal)
                                 emitter.append(f"next_{signal_index} = {signal.init}")
 
